@@ -53,7 +53,7 @@ def run(ctx):
         raise RuntimeError("GEN produced only %d cases" % len(cases))
     for c in cases:   # -coverage is off; one Init state per case
         ctx.actions["GenCodec.Init." + c["kind"]] = ctx.actions.get("GenCodec.Init." + c["kind"], 0) + 1
-    out = ctx.impl("harness/codec_driver.py", [], input_obj=cases)
+    out = ctx.impl("harness/codec_driver.py", ["--mutable-every", 30 if q else 4], input_obj=cases, timeout=6000)
     st = out["stats"]
     for c in cases:
         nontrivial = (c["kind"] == "file" and c["tail_padded"] != c["tail_size"]) or c["order"] != list(range(c["k"])) \
@@ -62,6 +62,9 @@ def run(ctx):
                   if nontrivial else None)
     ctx.notes.append("replayed %d file cases (%d segments, %d with a padded tail) and %d bare-codec cases; largest N = %d" % (
         st["file"], st["segments"], st["tail_padded_cases"], st["codec"], st["max_n"]))
+    ctx.notes.append("mutable leg: %d of the file cases published as MDMF on a grid of n servers, all but the Spec's k shares removed, read back "
+                     "whole and segment by segment (%d segments; %d cases whose padded tail is as large as a full segment)"
+                     % (st["mutable"], st["mutable_segments"], st["mutable_tail_fills_segment"]))
     for c in cases:
         if c["kind"] == "file" and c["num_segments"] == 2 and c["tail_padded"] != c["tail_size"] and c["n"] >= 5:
             ctx.sample(c, limit=1)
